@@ -34,9 +34,19 @@ Empties == {[allOf |-> <<>>, properties |-> EmptyFcn, prefixItems |-> <<>>, defs
 \* the empty schema ("true") and the falsy schema {"not": {}} as a child: they are Schema objects like any other
 TrueKids == {OneUnder(kw, EmptyFcn) : kw \in AllKW} \cup {OneUnder(kw, [not |-> EmptyFcn]) : kw \in AllKW}
             \cup {OneUnder(k1, OneUnder(k2, EmptyFcn)) : k1 \in {"items", "allOf", "properties", "not", "if"}, k2 \in AllKW}
+\* bushy trees: several child-bearing nodes on one level, in every position (an iterative, level-by-level copy
+\* has to reach each of them whatever their neighbours hold)
+RECURSIVE Bushy(_)
+Bushy(d) == IF d = 0 THEN Leaf(0) ELSE [allOf |-> <<Bushy(d - 1), Bushy(d - 1)>>, not |-> Bushy(d - 1)]
+BushyTrees == {Bushy(2), Bushy(3),
+               [allOf |-> <<[allOf |-> <<Leaf(1), Leaf(2)>>], [not |-> Leaf(3)]>>],
+               [allOf |-> <<[allOf |-> <<Leaf(1), Leaf(2), Leaf(3)>>], Leaf(4), [properties |-> [k |-> [if |-> Leaf(5)]]]>>],
+               [anyOf |-> <<Leaf(1), [anyOf |-> <<Leaf(2), [anyOf |-> <<Leaf(3), [not |-> Leaf(4)]>>]>>], [oneOf |-> <<Leaf(5), Leaf(6)>>]>>,
+                properties |-> [a |-> [items |-> Leaf(7)], b |-> [prefixItems |-> <<Leaf(8), [contains |-> Leaf(9)]>>]]],
+               [defs |-> [a |-> [defs |-> [x |-> Leaf(1), y |-> Leaf(2)]], b |-> [defs |-> [z |-> [not |-> Leaf(3)]]], c |-> Leaf(4)]]}
 D3 == {OneUnder(k1, OneUnder(k2, OneUnder(k3, Leaf(1)))) : k1 \in {"items", "allOf", "properties", "not"}, k2 \in AllKW, k3 \in {"if", "oneOf", "depSchemas", "defs"}}
 D3all == {OneUnder(k1, OneUnder(k2, OneUnder(k3, Leaf(1)))) : k1 \in AllKW, k2 \in AllKW, k3 \in {"if", "oneOf", "depSchemas", "defs", "items", "patternProperties"}}
-Trees == IF K >= 3 THEN UNION {D1, D2, Wide, Empties, TrueKids, D3, D3all} ELSE IF K >= 2 THEN UNION {D1, D2, Wide, Empties, TrueKids, D3} ELSE UNION {D1, D2, Wide, Empties, TrueKids}
+Trees == IF K >= 3 THEN UNION {D1, D2, Wide, Empties, TrueKids, BushyTrees, D3, D3all} ELSE IF K >= 2 THEN UNION {D1, D2, Wide, Empties, TrueKids, BushyTrees, D3} ELSE UNION {D1, D2, Wide, Empties, TrueKids, BushyTrees}
 
 Init == cs \in Trees /\ phase = "new"
 Next == phase = "new" /\ phase' = "done" /\ cs' = cs
